@@ -278,6 +278,48 @@ func runLoop(f []string) string {
 	}
 }
 
+// runLoopMid: the real healthCheckLoop with a slow token (ping 400 ms); the server is closed while the first check is in
+// flight.  The loop must end and no further check may start afterwards (watched for two intervals and a half).
+func runLoopMid(f []string) string {
+	if len(f) != 1 {
+		return "bad-op"
+	}
+	iv := int(hx.Atoi(f[0]))
+	cfg, err := mkConfig(3, iv, 1)
+	if err != nil {
+		return "err config"
+	}
+	s, err := server.VerifNew(cfg)
+	if err != nil {
+		return "err new"
+	}
+	scriptMu.Lock()
+	script[tokName(0)] = 's'
+	pingDelay = 400 * time.Millisecond
+	scriptMu.Unlock()
+	done := make(chan struct{})
+	p0 := atomic.LoadInt64(&pings)
+	go s.VerifHealthLoop(done)
+	deadline := time.Now().Add(5 * time.Second)
+	for atomic.LoadInt64(&pings)-p0 < 1 {
+		if time.Now().After(deadline) {
+			s.Close()
+			return "err no-check-ran"
+		}
+		time.Sleep(time.Millisecond)
+	}
+	time.Sleep(100 * time.Millisecond) // inside the ping
+	atClose := atomic.LoadInt64(&pings)
+	s.Close()
+	select {
+	case <-done:
+	case <-time.After(2 * time.Second):
+		return "spinning idle"
+	}
+	time.Sleep(time.Duration(iv)*2500*time.Millisecond + 500*time.Millisecond)
+	return fmt.Sprintf("exited extra=%d", atomic.LoadInt64(&pings)-atClose)
+}
+
 var setup sync.Once
 
 // Handle runs the real code on one op (fields after the property tag).  Ops must be handled one
@@ -297,6 +339,8 @@ func Handle(f []string) string {
 		return runLoop(f[1:])
 	case "slow":
 		return runSlow(f[1:])
+	case "loopmid":
+		return runLoopMid(f[1:])
 	}
 	return "bad-op"
 }
@@ -434,6 +478,7 @@ func Gen(w *bufio.Writer, seed uint64, tier string) {
 	// (e) a slow but successful round (three pings of 0.9 s, interval 1 s), queried 0.5 s / 3.3 s after it completed
 	fmt.Fprintln(w, "C20 slow 3 900 500 1")
 	fmt.Fprintln(w, "C20 slow 1 200 3300 1")
+	fmt.Fprintln(w, "C20 loopmid 1")
 	fmt.Fprintln(w, "C20 loop 0 60")
 	fmt.Fprintln(w, "C20 loop 1 60")
 	fmt.Fprintln(w, "C20 loop 1 1")
